@@ -206,7 +206,7 @@ DESCR = {
             "design_ref": "DESIGN.md section 6 C15", "note": _DYN_NOTE + "; relies on the PGM_INDEX_VERIF friend declaration in DynamicPGMIndex",
             "technique": "stateful property-based testing with an invariant over every reachable state"},
     "C18": {"level": "generated-input search through the extern \"C\" functions only (cpgm.cpp of the tree under test is compiled into the harness): static indexes with "
-                     "run-time epsilon judged by the C01/C02 oracle, NULL for reserved data; dynamic call histories judged against std::map incl. the iterator protocol",
+                     "run-time epsilon judged by the C01/C02 oracle (also with other handles of the same key type and other epsilons alive), NULL for reserved data; dynamic call histories judged against std::map incl. the iterator protocol",
             "design_ref": "DESIGN.md section 6 C18", "note": "trusted: std::lower_bound / std::map; dynamic_pgm_index_uint64 is declared in cpgm.h but not defined by cpgm.cpp and is not exercised",
             "technique": "property-based testing (static) and model-based stateful testing (dynamic) through the C ABI"},
     "C20": {"level": "generated-input search over (valid input, one violation, position): every listed precondition violation must be answered with the documented "
